@@ -1486,6 +1486,42 @@ def _d5(ctx):
     consumer_ok = consumer_ok and bool(reads) and bool(skips)
     ck.expect(bool(reads) and bool(skips), 'C20-D5b', sd.qual, 'links of every scraper\'s result are dropped when the page said nofollow',
               'scrape_document queues the linked URLs of all scrape results without asking whether the page declared nofollow', sd.loc())
+    # ---- (b''') what the consumer drops is the `linked` contexts: every scraper therefore marks as linked whatever it does not mark
+    #      as an inline requisite (a context that is neither is followed like any other link, but escapes the nofollow test)
+    if skips:
+        n_lc = 0
+        lc_fields = None
+        for v_ in repo.module('wpull.scraper.base').tree.body:
+            if isinstance(v_, ast.Assign) and len(v_.targets) == 1 and norm_text(v_.targets[0]) == 'LinkContext' and isinstance(v_.value, ast.Call) \
+                    and len(v_.value.args) >= 2 and isinstance(v_.value.args[1], (ast.List, ast.Tuple)):
+                lc_fields = [(e.value if isinstance(e, ast.Constant) else e.elts[0].value) for e in v_.value.args[1].elts
+                             if isinstance(e, ast.Constant) or (isinstance(e, ast.Tuple) and e.elts and isinstance(e.elts[0], ast.Constant))]
+        if not lc_fields or 'inline' not in lc_fields or 'linked' not in lc_fields:
+            raise AnalysisError('LinkContext: field list with inline / linked not found')
+        for f_ in repo.funcs.values():
+            if not f_.module.name.startswith('wpull.scraper.') or f_.module.name.endswith('_test'):
+                continue
+            for c_ in U.calls(f_.node):
+                if (dotted(c_.func) or '').split('.')[-1] != 'LinkContext':
+                    continue
+                n_lc += 1
+                def arg(name):
+                    for k_ in c_.keywords:
+                        if k_.arg == name:
+                            return k_.value
+                    i_ = lc_fields.index(name)
+                    return c_.args[i_] if i_ < len(c_.args) else ast.Constant(value=False)
+                inl, lnk = arg('inline'), arg('linked')
+                ok_ = (isinstance(inl, ast.Constant) and inl.value is True) or (isinstance(lnk, ast.Constant) and lnk.value is True) \
+                    or (isinstance(lnk, ast.UnaryOp) and isinstance(lnk.op, ast.Not) and norm_text(lnk.operand) == norm_text(inl)) \
+                    or (isinstance(inl, ast.Attribute) and isinstance(lnk, ast.Attribute) and inl.attr == 'inline' and lnk.attr == 'linked'
+                        and norm_text(inl.value) == norm_text(lnk.value))
+                hard_ck = ck
+                ck.expect(ok_, 'C20-D5b', f_.qual, 'LinkContext(...): whatever is not an inline requisite is marked linked',
+                          'a link context with inline=%s, linked=%s can be neither: the link is followed like any other, but the nofollow test of '
+                          'ProcessingRule (which drops `linked` contexts) does not see it' % (norm_text(inl)[:30], norm_text(lnk)[:30]), f_.loc(c_))
+        if n_lc < 4:
+            raise AnalysisError('expected the LinkContext constructions of the html, css, javascript and sitemap scrapers (found %d)' % n_lc)
     # ---- (b) removal in scrape: when the consumer drops the linked URLs of every result under the published flag (b''), a removal inside
     #      the scraper is a second line of defence; what it lacks is then reported as a remark, not as a violation of the property
     class _Soft:
